@@ -49,6 +49,15 @@ NOTES = {
     'C14-9': 'first missed: no pair had identical content under different html/head/body attributes; added, under every include value',
     'C16-10': 'first missed: the session id always ended the path; session ids after a query string and inside a fragment added',
     'C17-10': 'first missed: no refused argument (unknown rule after a valid one) was repeated in one process; added to the workload',
+    # round 7
+    'C04-12': 'first missed: no link had several hidden or replaced children (svg/script/style followed by img); added to the link contents',
+    'C05-12': 'first missed: no pair had empty visible text on both sides; image-only pages, application shells, title-only pages added',
+    'C06-12': 'first missed: Latin-1 with bytes 0x80-0x9f was only served as text/html or text/plain; the other HTML-family media types added',
+    'C09-11': 'first missed: escaped markup never sat in an element that is raw text under other parser settings (noscript, noframes, noembed, xmp); added',
+    'C15-12': 'first missed: the render checks never ran another differ in the same process first; every render check now warms up the links and text differs',
+    'C16-12': 'first missed: the session parameter never began the URL; added',
+    'C17-11': 'first missed: the workload had no two multi-rule values of which one lacks a rule of the other; rule subsets in both orders added',
+    'C19-11': 'first missed: every error request failed on one side only; requests with both sides at fault added',
     'C20-5': 'first missed: shutdown never began while a request was still fetching its pages; two scenarios added to the real-process probe',
 }
 
@@ -80,15 +89,15 @@ def main():
     i = s.index('## 11. Seeded changes')
     head = '''## 11. Seeded changes and reverse fixes: which check catches what
 
-%d breaking changes were made by fresh sub-agents in six rounds (2 per property per round from
-round 2 on; rounds 4 to 6 asked for changes that need something specific to manifest: an interleaving, a
+%d breaking changes were made by fresh sub-agents in seven rounds (2 per property per round from
+round 2 on; rounds 4 to 7 asked for changes that need something specific to manifest: an interleaving, a
 multi-request history, an unusual input, two cooperating edits), each agent given only the text of
 one property and a scratch worktree under `/tmp`; each change was confirmed by me
 (`harness/confirm_seed.sh`: the agent's demonstration passes on the unchanged tree and
 fails with the change; the 81 tests still pass) and archived under `seeded/<id>/`.
 `harness/seed_sweep.py` applies each in turn to `/repo`, runs the quick check of its
 property, records the failing obligations (`seeded/SWEEP.json`, `meta.json: caught_by`)
-and undoes it. **%d of %d are caught by the quick tier; all 18 reverse fixes are caught.**
+and undoes it. **%d of %d are caught by the quick tier; all 18 applicable reverse fixes are caught (the reverse of fix 19 is kept as `regress/superseded-…`: since fix 23 made `iframe` an opaque unit the branch it removes is unreachable, and reverting it no longer breaks anything).**
 The sweep of all changes runs as six shards side by side, each on its own snapshot of `/verif` and of the
 repository (`harness/sweep_shard.sh` under `vp run --with-repo`, 35 minutes), never on `/repo` while a check runs there.
 Seeds that an earlier version of a check missed (or caught by correspondence only) are
